@@ -1329,6 +1329,10 @@ M('C18', 'original defect: accumulated trunc_err not part of the resume data', A
   "        data['trunc_err'] = self.trunc_err\n", "",
   'RESUME-accumulators')
 
+M('C16', 'original defect: Lanczos keeps the rebuilt vectors in the cache for the next run()', 'tenpy/linalg/krylov_based.py',
+  "        self._cache = []  # drop the vectors of a previous run() (left by the rebuild for N_cache < N)\n", "",
+  'KRYLOV-cache-reset')
+
 # ---------------------------------------------------------------- C16 / C19
 M('C16', 'GMRES restart: relative residual norm used for normalisation (round-3 seed b)', KRY,
   """        self.total_error.append([npc.norm(self.rs[-1]) / self.b_norm])
